@@ -4,7 +4,7 @@ use crate::rauth::*;
 use crate::sess::*;
 
 pub fn run(ctx: &mut Ctx) {
-    let scenes = ctx.budget(4, 80);
+    let scenes = ctx.budget(4, 40);
     for _ in 0..scenes {
         let mut rng = ctx.rng.clone();
         let Some(sc) = scene_with_key(&mut rng, None) else { ctx.rng = rng; continue };
